@@ -101,7 +101,7 @@ def run(tier, seed, replay=None):
                 "range on a diagram of >= 2 boxes; distinct by request line")
     rep.partial = []
     rep.lean = lean_obligations(PROP, thorough=(tier == "thorough"))
-    n_diagrams = 120 if tier == "quick" else 700
+    n_diagrams = 120 if tier == "quick" else 2500
     rng = random.Random(seed)
     drv = Driver()
     fams = {"monoidal": Family("monoidal"), "rigid": Family("rigid")}
